@@ -349,13 +349,16 @@ func c09RunTwoPortals(cell c09Cell, firstBinary bool) explore.Result {
 
 func init() {
 	explore.Register(&explore.Check{
-		ID:        "C09",
-		Level:     "exploration",
-		Technique: "exhaustive enumeration over a stated value alphabet (types x boundary values x Go source forms x NULL forms x formats x NULL placements in rows of 1-3 columns), each row written through a live session and decoded by an independent decoder in the announced format",
-		Rule:      "types bool,int2,int4,int8,float4,float8,text,varchar,bytea,uuid (+date,timestamp,timestamptz,json thorough); boundary values per type; source forms native / pgtype.X{Valid:true} / pointer; NULL forms untyped nil / typed nil pointer / invalid pgtype value; text via simple query, binary via Bind result code 1; multi-column rows over a 5-type subset with every NULL placement x every NULL form; non-trivial = row accepted by the writer",
+		ID:          "C09",
+		Level:       "exploration",
+		Technique:   "exhaustive enumeration over a stated value alphabet (types x boundary values x Go source forms x NULL forms x formats x NULL placements in rows of 1-3 columns), each row written through a live session and decoded by an independent decoder in the announced format",
+		Rule:        "types bool,int2,int4,int8,float4,float8,text,varchar,bytea,uuid (+date,timestamp,timestamptz,json thorough); boundary values per type; source forms native / pgtype.X{Valid:true} / pointer; NULL forms untyped nil / typed nil pointer / invalid pgtype value; text via simple query, binary via Bind result code 1; multi-column rows over a 5-type subset with every NULL placement x every NULL form; non-trivial = row accepted by the writer",
 		Assumptions: []string{"small-scope claim: exhaustive for the listed alphabet only", "a source form that pgx cannot encode (Row returns an error) is outside the claim; it must emit nothing"},
 		Enumerate:   c09Enumerate,
-		Bounds:      func(tier string) map[string]any { v, n := c09Values(tier); return map[string]any{"values": len(v), "null_groups": len(n), "max_columns": 3} },
+		Bounds: func(tier string) map[string]any {
+			v, n := c09Values(tier)
+			return map[string]any{"values": len(v), "null_groups": len(n), "max_columns": 3}
+		},
 		RequiredOutcomes: []string{"values", "with-null", "after-rejected-row"},
 	})
 }
@@ -394,8 +397,10 @@ func c09Enumerate(tier string, emit explore.Emit) {
 		for _, firstBinary := range []bool{true, false} {
 			cell, fb := c09Cell{v.Type, v.OID, v.Forms[0].Name, v.Forms[0].V, v.Canon}, firstBinary
 			emit(explore.Case{Family: "two-portals", Size: 2,
-				Desc: func() any { return map[string]any{"value": cell.String(), "first_portal_binary": fb, "second_portal_binary": !fb} },
-				Run:  func() explore.Result { return c09RunTwoPortals(cell, fb) }})
+				Desc: func() any {
+					return map[string]any{"value": cell.String(), "first_portal_binary": fb, "second_portal_binary": !fb}
+				},
+				Run: func() explore.Result { return c09RunTwoPortals(cell, fb) }})
 		}
 	}
 	// multi-column rows: every placement of NULLs, every NULL form
